@@ -65,7 +65,9 @@ void module_constructor(const char name[])
             for (tok = strtok_r(line + nl + 1, " \t\r\n", &save); tok; tok = strtok_r(NULL, " \t\r\n", &save)) {
                 /* module_depends() keeps the pointer: give it storage that outlives this call.
                  * "^name": this module declares itself a back-end of <name> (it must be unloaded after <name>). */
-                if (tok[0] == '^')
+                if (tok[0] == '!' && !tok[1])
+                    module_is_backend();          /* "!": this module declares itself a back-end (to be unloaded after ordinary modules) */
+                else if (tok[0] == '^')
                     module_antidepends(strdup(tok + 1), NULL);
                 else
                     module_depends(strdup(tok), NULL);
